@@ -210,7 +210,7 @@ def strategy(tier):
 
 
 def mesh_strategy(tier):
-    return S.dataset_spec(convs=["ugrid"], max_vars=2, max_extra=1, modes=("raw", "decoded"))
+    return S.dataset_spec(convs=["ugrid"], max_vars=2, max_extra=1, modes=("raw", "decoded", "dask", "file"))
 
 
 SUBS = [
